@@ -17,6 +17,7 @@ type wk struct {
 
 // profile describes what a property's machine generates.
 type profile struct {
+	arbVariants bool     // also generate applications whose user type / register values lack the optional arbitrary-values interfaces
 	must, may   []string // modules always / sometimes loaded
 	setups      []string // 2FA/expire setups that may be performed (order generated)
 	mustSetups  []string
@@ -86,6 +87,13 @@ func genConfig(t *rapid.T, p profile) harness.Config {
 	c.LegacyRedirect = chance(t, "legacyredirect", 12)
 	c.NilEmptyState = chance(t, "nilemptystate", 20)
 	c.MiddlewareEarly = chance(t, "middlewareearly", 20)
+	if p.arbVariants && contains(mods, "register") {
+		c.NoArbitraryUser = chance(t, "noarbuser", 30)
+		c.PlainRegValues = chance(t, "plainregvalues", 30)
+	}
+	if chance(t, "writerwrap", 25) {
+		c.WriterWrap = pick(t, "wrapkind", "underlying", "unwrap", "unwrap")
+	}
 	if chance(t, "localizer", 20) {
 		c.Localizer = "untranslated"
 	}
@@ -118,6 +126,9 @@ func genConfig(t *rapid.T, p profile) harness.Config {
 	}
 	if c.Middleware == "remember" && !c.Has("remember") {
 		c.Modules = append(c.Modules, "remember")
+	}
+	if !c.Has("remember") && c.Middleware != "remember" && chance(t, "norememberstore", 40) {
+		c.NoRememberStore = true // ... and never wrote the remember-token methods of its storer
 	}
 	if !c.Has("remember") && c.Middleware != "remember" && chance(t, "nocookiestore", 35) {
 		c.NoCookieStore = true // an application without remember-me leaves the cookie store out
@@ -358,6 +369,10 @@ func drawOp(t *rapid.T, kind string, e genEnv) Op {
 		}
 	case "visit":
 		op.S = pick(t, "route", visitRoutes...)
+		if chance(t, "visitmethod", 15) {
+			// protected resources are reached with every method a client can send, not only GET
+			op.Mut = pick(t, "vmethod", "HEAD", "OPTIONS", "POST", "PUT", "PATCH", "DELETE", "TRACE", "PROPFIND", "OPTIONS")
+		}
 	case "set":
 		op.S = pick(t, "appkey", harness.AppKeys...)
 		op.S2 = pick(t, "appval", "dark", "3", "fr")
@@ -568,6 +583,19 @@ func drawSnippet(t *rapid.T, name string, e genEnv) []Op {
 		if c.Has("remember") && chance(t, "revisit", 50) {
 			ops = append(ops, Op{K: "newsess", B: b}, Op{K: "visit", B: b, S: pick(t, "route", visitRoutes...)})
 		}
+	case "oauthdeny":
+		// a logged-in user starts "connect with <provider>" and presses cancel there: the provider's callback reports an error
+		if !c.Has("oauth2") || !c.Has("auth") {
+			return nil
+		}
+		prov := rapid.IntRange(0, 1).Draw(t, "prov")
+		ops = append(ops, login)
+		for k := rapid.IntRange(1, 4).Draw(t, "ndeny"); k > 0; k-- {
+			ops = append(ops, Op{K: "o2start", B: b, N: prov}, Op{K: "o2cb", B: b, N: prov, Src: "state", SA: b, S: "code-u1", F: true})
+		}
+		if chance(t, "then", 60) {
+			ops = append(ops, Op{K: "newsess", B: b}, Op{K: "login", B: b, A: a, Src: pick(t, "thenpw", "pw", "pw", "lit"), SA: a, S: "wrong-Pass1!"})
+		}
 	case "2fa":
 		if !c.Has("auth") {
 			return nil
@@ -666,6 +694,32 @@ func drawSnippet(t *rapid.T, name string, e genEnv) []Op {
 		if c.Has("recover") {
 			ops = append(ops, Op{K: "recstart", B: b, A: a}, Op{K: "recend", B: b, A: a, Src: "rectok", SA: a, Mut: mut, MA: rapid.IntRange(0, 80).Draw(t, "ma2"), S: pick(t, "pw", goodPWs...)})
 		}
+	case "rememberedpoke":
+		// the very request that presents a remember cookie (no session yet) goes straight to a 2FA settings route
+		if !c.Has("auth") || c.Middleware != "remember" {
+			return nil
+		}
+		login.F = true
+		ops = append(ops, login)
+		if c.HasSetup("totp") {
+			ops = append(ops, Op{K: "totpvalidate", B: b, A: a, Src: "totp", SA: a})
+		}
+		if c.HasSetup("sms") {
+			ops = append(ops, Op{K: "smsvalidate", B: b, A: a, Src: "smssess"})
+		}
+		ops = append(ops, Op{K: "newsess", B: b})
+		switch pick(t, "rpoke", "regen", "totpremove-rec", "smsremove-rec", "totpremove-code", "totpsetup") {
+		case "regen":
+			ops = append(ops, Op{K: "regen", B: b})
+		case "totpremove-rec":
+			ops = append(ops, Op{K: "totpremove", B: b, A: a, Src: "rec", SA: a, F: true})
+		case "smsremove-rec":
+			ops = append(ops, Op{K: "smsremove", B: b, A: a, Src: "rec", SA: a, F: true})
+		case "totpremove-code":
+			ops = append(ops, Op{K: "totpremove", B: b, A: a, Src: "totp", SA: a})
+		case "totpsetup":
+			ops = append(ops, Op{K: "totpsetup", B: b})
+		}
 	case "settings":
 		// a fully authed owner (or somebody else) pokes at the 2FA settings
 		if !c.Has("auth") {
@@ -683,8 +737,11 @@ func drawSnippet(t *rapid.T, name string, e genEnv) []Op {
 			ops = append(ops, Op{K: "smsvalidate", B: b, A: a, Src: "smssess"})
 		}
 		if startHalf {
-			ops = append(ops, Op{K: "newsess", B: b}, Op{K: "visit", B: b, S: "/open"})
-			if chance(t, "pwonly", 60) {
+			ops = append(ops, Op{K: "newsess", B: b})
+			if chance(t, "firstvisit", 50) {
+				ops = append(ops, Op{K: "visit", B: b, S: "/open"})
+			} // else: the request that presents the remember cookie is itself one of the pokes below
+			if chance(t, "pwonly", 45) {
 				// only the password step of a fresh login from the half-authed session
 				ops = append(ops, Op{K: "login", B: b, A: a, Src: "pw", SA: a}, Op{K: "regen", B: b})
 			}
@@ -746,6 +803,10 @@ func drawSnippet(t *rapid.T, name string, e genEnv) []Op {
 		}
 		n := rapid.IntRange(0, 2).Draw(t, "recn")
 		ops = append(ops, login, Op{K: page, B: b, A: a, Src: "rec", SA: a, SN: n, F: true})
+		if chance(t, "reuseforremove", 35) {
+			// ... or present the code that just logged in where a recovery code disables the factor
+			ops = append(ops, Op{K: pick(t, "rmpage", "totpremove", "smsremove"), B: b, A: a, Src: "rec", SA: a, SN: n, F: true})
+		}
 		if chance(t, "replay", 70) {
 			ops = append(ops, Op{K: "newsess", B: b}, login, Op{K: page, B: b, A: a, Src: "rec", SA: a, SN: n, F: true})
 		}
@@ -853,6 +914,15 @@ func drawSnippet(t *rapid.T, name string, e genEnv) []Op {
 		if c.Has("remember") {
 			ops = append(ops, Op{K: "newsess", B: b}, Op{K: "visit", B: b, S: "/p/none"})
 		}
+	case "o2late":
+		// the user leaves the provider's page open and comes back much later (or somebody else's callback arrives then)
+		if !c.Has("oauth2") {
+			return nil
+		}
+		prov := rapid.IntRange(0, 1).Draw(t, "prov")
+		ops = append(ops, Op{K: "o2start", B: b, N: prov, S2: pick(t, "redir", redirPool...)},
+			Op{K: "advance", N: pick(t, "late", 600, 3500, 3700, 7200, 100000, 1000000)},
+			Op{K: "o2cb", B: b, N: prov, Src: pick(t, "latestate", "state", "state", "empty", "absent", "lit"), SA: b, S: pick(t, "code", "code-u1", "code-u2")})
 	case "oauthlock":
 		if !c.Has("oauth2") {
 			return nil
@@ -949,6 +1019,13 @@ func drawSnippet(t *rapid.T, name string, e genEnv) []Op {
 			ops = append(ops, Op{K: "newsess", B: b})
 		}
 		ops = append(ops, Op{K: "login", B: b2, A: a, Src: "pw", SA: a}, Op{K: "totpvalidate", B: b2, A: a, Src: "totp", SA: a})
+	case "smsfaultreplay":
+		// the SMS step with one backend call failed, then the very same code again
+		if !c.HasSetup("sms") || !c.Has("auth") {
+			return nil
+		}
+		ops = append(ops, login, Op{K: "smsvalidate", B: b, A: a, Src: "smssess", FA: rapid.IntRange(1, 8).Draw(t, "fa"), FK: "generic"},
+			Op{K: "smsvalidate", B: b, A: a, Src: pick(t, "again", "sms", "sms", "smssess"), SA: a})
 	case "removereplay":
 		// log in with TOTP code X, then present X again where a code disables the factor
 		if !c.HasSetup("totp") || !c.Has("auth") {
